@@ -111,7 +111,10 @@ def model_requests(case, obs):
         return []
     md = obs["read"]["metadata"]
     n = obs["read"]["nrow"]
-    return [("geo_write", {"metadata": [[json.dumps(k, ensure_ascii=case["ensure_ascii"]), "v"] for k in md], "features": ["f"] * n})]
+    # (1) the writer's token stream; (2) the reader: `Geo.readColumns` = `Read.frameFromRecords` over the features' properties
+    recs = [[[k, json.dumps(v, sort_keys=True)] for k, v in f["properties"].items()] for f in case["raw"]["features"]]
+    return [("geo_write", {"metadata": [[json.dumps(k, ensure_ascii=case["ensure_ascii"]), "v"] for k in md], "features": ["f"] * n}),
+            ("read_restrict", {"kind": "frame", "records": recs, "columns": case["columns"] or []})]
 
 
 def skeleton(text):
@@ -219,6 +222,24 @@ def judge(ctx, case, obs, mouts):
             exp = [t if not t.startswith("V:") else "V" for t in m]
             if sk != exp:
                 ctx.violation("correspondence", "write:skeleton-differs", "token skeleton of the written file differs from the model's", case, {"skeleton": sk}, exp)
+    if mouts and len(mouts) > 1 and "read" in obs:
+        m = mouts[1]
+        if isinstance(m, dict) and "err" in m:
+            ctx.violation("correspondence", "read:model-error", f"model rejected the request: {m['err']}", case, obs, m)
+        else:
+            rd = obs["read"]
+            got_names = [k for k in rd["colnames"] if k != "geometry"]
+            if [k for k, _ in m] != got_names:
+                ctx.violation("correspondence", "read:columns-differ", "model and implementation read different columns / order", case, obs, m)
+            else:
+                for k, vals in m:
+                    mine = [None if v is None or json.loads(v) is None else json.loads(v) for v in vals]
+                    theirs = rd["cols"][k]
+                    norm = lambda x: None if x is None or x == "" or (isinstance(x, float) and x != x) else (float(x) if isinstance(x, (int, float)) and not isinstance(x, bool) else
+                                     json.dumps(x, sort_keys=True) if isinstance(x, (dict, list)) else x)
+                    if [norm(x) for x in mine] != [norm(x) for x in theirs]:
+                        ctx.violation("correspondence", "read:values-differ", f"model and implementation disagree on column {k!r}", case, {"impl": theirs}, mine)
+                        break
     ctx.case_done(case, nontrivial)
 
 
